@@ -283,6 +283,8 @@ def hashtbl_jobs(tier):
         jobs.append(Job("hashtbl-r%d" % rng, H, [rng, 6 if X else 5, 2], wraps=VA_WRAPS, weight=10))
     jobs.append(Job("hashtbl-r2-twin", H, [2, 5 if X else 4, 3], wraps=VA_WRAPS, weight=10))
     jobs.append(Job("hashtbl-r2-putint", H, [2, 4, 4], wraps=VA_WRAPS, weight=10))
+    for rng in (1, 2):   # value universe with a value of length 0 (valid pointer, size 0) next to non-empty ones
+        jobs.append(Job("hashtbl-r%d-empty" % rng, H, [rng, 4 if X else 3, 5], wraps=VA_WRAPS, weight=10))
     for rng in (1, 7, 0):
         jobs.append(Job("hashtbl-pair-r%d" % rng, H, ["pair", rng], wraps=VA_WRAPS, weight=2))
     jobs.append(bigfmt_job("qhashtbl"))
@@ -358,7 +360,9 @@ def c09(tier, seed):
 def vector_jobs(tier):
     X = tier == "thorough"
     jobs = []
-    sizes = [1, 2, 3, 4, 7, 8, 16, 64] if X else [1, 3, 8, 16]
+    # element sizes on both sides of the usual fixed staging-buffer sizes (16, 32, 64): a routine that moves elements through a
+    # scratch buffer behaves differently above it
+    sizes = [1, 2, 3, 4, 7, 8, 16, 17, 31, 33, 64, 65, 100] if X else [1, 3, 8, 16, 33, 65]
     for cap in range(4):
         for osz in sizes:
             for pol in range(3):
@@ -560,7 +564,7 @@ def c14(tier, seed):
 
 
 SCHED_WRAPS = ["pthread_mutex_trylock", "pthread_mutex_unlock", "usleep"]
-C13_CONTAINERS = ["qvector", "qlist", "qqueue", "qstack", "qtreetbl", "qhashtbl", "qlisttbl", "qlisttbl-unique"]
+C13_CONTAINERS = ["qvector", "qlist", "qqueue", "qstack", "qqueue-int", "qstack-int", "qtreetbl", "qhashtbl", "qlisttbl", "qlisttbl-unique"]
 
 
 def c13_jobs(tier):
